@@ -268,7 +268,9 @@ def session_step(tier, scope):
     of one property (Trace_Library's Scope)."""
     return {"type": "i2s", "name": "sessions, scope " + scope, "spec": "Trace_Library", "cfg": "Trace_Library_" + scope,
             "cmd": ["drive", "session", "{seed}", q(tier, 240, 3000), "{trace}"],
-            "min_tally": {"scalar": [500, 0, 0, 0], "derive": [500, 0, 0, 0], "integrate": [500, 0, 5, 0], "combine": [500, 0, 0, 10]}.get(scope, [0, 60, 0, 0])}
+            # (vacuity guards with a wide margin: at VERIF_SEED 1 the tallies are [741, 134..1086, 9, 24]; the bulk of each clause's
+            #  coverage is the model's own scripts, library_s2i below)
+            "min_tally": {"scalar": [300, 0, 0, 0], "derive": [300, 0, 0, 0], "integrate": [300, 0, 1, 0], "combine": [300, 0, 0, 3]}.get(scope, [0, 30, 0, 0])}
 
 
 def library_s2i(tier, scope, kind="poly"):
